@@ -193,6 +193,17 @@ class Ctx:
             self.solver.add(*self.extra_axioms)
         return self.solver
 
+    def grammar(self):
+        """parser rules of src/blackbird.g4 with their presence vectors (pyvc/wf.py); None if the grammar cannot be read"""
+        if not hasattr(self, "_grammar"):
+            try:
+                from . import wf
+                self._grammar = wf.Grammar(self.repo)
+            except Exception as e:             # noqa: the wf facts are an optional strengthening; without them proofs are only harder
+                self._grammar = None
+                self.grammar_error = str(e)[:200]
+        return self._grammar
+
     def type_facts(self, key, value):
         """type invariants of module tables: facts about a (new) value of the location `key`"""
         if key.startswith("global:") and self.global_types.get(key[7:]) == "dict" and z3.is_expr(value) and not z3.is_bool(value):
@@ -285,6 +296,8 @@ class Ctx:
         f = e.func
         # keyword / star arguments
         if isinstance(f, ast.Name) and f.id == "isinstance":
+            if len(e.args) != 2 or e.keywords or any(isinstance(a, ast.Starred) for a in e.args):
+                raise Unsupported("isinstance with unexpected argument", e)
             res = []
             for obj, p2 in ex.ev(e.args[0], p):
                 for cls, p3 in ex.ev(e.args[1], p2):
@@ -296,9 +309,15 @@ class Ctx:
                         names.append(c.name)
                     res.append((self.isinstance_(obj, names), p3))
             return res
+        gen = self.map_filter_as_generator(e, p)
+        if gen is not None:
+            return ex.ev(gen, p)
         if isinstance(f, ast.Name) and f.id in ("set", "list") and len(e.args) == 1 and not e.keywords and f.id not in p.env and \
-           isinstance(e.args[0], (ast.ListComp, ast.GeneratorExp, ast.SetComp)):
+           (isinstance(e.args[0], (ast.ListComp, ast.GeneratorExp, ast.SetComp)) or
+                (isinstance(e.args[0], ast.Call) and self.map_filter_as_generator(e.args[0], p) is not None)):
             c0 = e.args[0]
+            if isinstance(c0, ast.Call):
+                c0 = self.map_filter_as_generator(c0, p)
             elt = c0.elt
             comp = ast.SetComp(elt=elt, generators=c0.generators) if f.id == "set" else ast.ListComp(elt=elt, generators=c0.generators)
             ast.copy_location(comp, c0)            # same position => same temporary name as the inner comprehension
@@ -308,6 +327,56 @@ class Ctx:
             res.extend(self.dispatch(ex, e, f, args, kwargs, starkw, p2))
         return res
 
+    def map_filter_as_generator(self, e, p):
+        """map(f, xs) / filter(f, xs) with f a one-parameter lambda, a one-parameter nested def that only returns an expression, or a plain
+        name: the generator expression (f(x) for x in xs) / (x for x in xs if f(x)), the function body substituted. None if not of this shape."""
+        f = e.func
+        if not (isinstance(f, ast.Name) and f.id in ("map", "filter") and f.id not in p.env and len(e.args) == 2 and not e.keywords
+                and not any(isinstance(a, ast.Starred) for a in e.args)):
+            return None
+        cached = getattr(e, "_pyvc_gen", None)
+        if cached is not None:
+            return cached
+        fn, xs = e.args
+        var = "__mf%d_%d" % (e.lineno, e.col_offset)
+        body = None
+        lam = fn
+        if isinstance(fn, ast.Name) and isinstance(p.env.get(fn.id), Closure):
+            fd = p.env[fn.id].fdef
+            stmts = [s_ for s_ in fd.body if not (isinstance(s_, ast.Expr) and isinstance(s_.value, ast.Constant))]
+            if len(stmts) == 1 and isinstance(stmts[0], ast.Return) and stmts[0].value is not None and len(fd.args.args) == 1 and not fd.args.defaults \
+               and not fd.args.vararg and not fd.args.kwarg and not fd.args.kwonlyargs:
+                lam = ast.Lambda(args=fd.args, body=stmts[0].value)
+        if isinstance(lam, ast.Lambda):
+            a = lam.args
+            if len(a.args) != 1 or a.defaults or a.vararg or a.kwarg or a.kwonlyargs or getattr(a, "posonlyargs", None):
+                return None
+            if any(isinstance(n, (ast.Lambda, ast.ListComp, ast.SetComp, ast.DictComp, ast.GeneratorExp)) for n in ast.walk(lam.body)):
+                return None                                  # an inner scope could rebind the parameter's name
+            old = a.args[0].arg
+
+            class Ren(ast.NodeTransformer):
+                def visit_Name(self, n):
+                    return ast.copy_location(ast.Name(id=var, ctx=n.ctx), n) if n.id == old else n
+            import copy as _copy
+            body = Ren().visit(_copy.deepcopy(lam.body))
+        elif isinstance(fn, ast.Name) and fn.id not in p.env:
+            body = ast.Call(func=ast.Name(id=fn.id, ctx=ast.Load()), args=[ast.Name(id=var, ctx=ast.Load())], keywords=[])
+        else:
+            return None
+        tgt = ast.Name(id=var, ctx=ast.Store())
+        if f.id == "map":
+            gen = ast.GeneratorExp(elt=body, generators=[ast.comprehension(target=tgt, iter=xs, ifs=[], is_async=0)])
+        else:
+            gen = ast.GeneratorExp(elt=ast.Name(id=var, ctx=ast.Load()), generators=[ast.comprehension(target=tgt, iter=xs, ifs=[body], is_async=0)])
+        ast.copy_location(gen, e)
+        for n in ast.walk(gen):
+            if not hasattr(n, "lineno"):
+                ast.copy_location(n, e)
+        ast.fix_missing_locations(gen)
+        e._pyvc_gen = gen
+        return gen
+
     def isinstance_(self, obj, names):
         if isinstance(obj, PyC):
             pyt = {"int": int, "float": float, "str": str, "bool": bool, "complex": complex}
@@ -315,6 +384,7 @@ class Ctx:
         if isinstance(obj, Tup):
             return z3.BoolVal(any(n in ("list" if obj.kind == "list" else "tuple", "Iterable") for n in names))
         o = asV(obj)
+        self.assumed.add("A-class-hierarchy")
         alts = []
         for n in names:
             if n in self.ctx_classes:
@@ -334,7 +404,9 @@ class Ctx:
                         if isinstance(v, Tup):
                             nxt.append(((args + v.items, kw, skw), p2))
                         else:
-                            nxt.append(((args + [v], dict(kw, __star__=PyC(True)), skw), p2))
+                            # a starred sequence of unknown length: one entry of args, its position recorded under __star__
+                            prev = kw["__star__"].v if "__star__" in kw else ()
+                            nxt.append(((args + [v], dict(kw, __star__=PyC(prev + (len(args),))), skw), p2))
                     else:
                         nxt.append(((args + [v], kw, skw), p2))
             combos = nxt
@@ -349,29 +421,55 @@ class Ctx:
             combos = nxt
         return combos
 
+    def plain(self, e, star, starkw, what):
+        """guard of the callees that take exactly the evaluated positional / keyword arguments: f(*seq) with a sequence of unknown length is
+        NOT f(seq), and f(**kw) is not f() -- an argument the model would drop makes two different calls one term"""
+        if star is not None:
+            raise Unsupported("%s with unexpected argument (*sequence of unknown length)" % what, e)
+        if starkw is not None:
+            raise Unsupported("%s with unexpected argument (**mapping)" % what, e)
+
+    def exc_value(self, e, n, args, kwargs, star, starkw):
+        self.plain(e, star, starkw, n)
+        if len(args) > 1 or kwargs:
+            raise Unsupported("%s with unexpected argument (the model keeps one message)" % n, e)
+        return ExcVal(n, args[0] if args else None)
+
+    def lib_call(self, ex, e, name, args, kwargs, star, starkw, p):
+        h, aid = lib.FUNCS[name]
+        if star is not None and name in lib.STAR_OK_FUNCS:
+            kwargs = dict(kwargs, __star__=star)          # the handler models the starred shape itself
+            star = None
+        self.plain(e, star, starkw, name)
+        self.assumed.add(aid)
+        return h(ex, e, args, kwargs, p)
+
     def dispatch(self, ex, e, f, args, kwargs, starkw, p):
+        star = kwargs.get("__star__")             # PyC(positions in args of starred sequences of unknown length) or None
         kwargs = {k: v for k, v in kwargs.items() if k != "__star__"}
         if isinstance(f, ast.Name):
             n = f.id
             if n in p.env:
-                return self.call_value(ex, e, p.env[n], args, kwargs, starkw, p)
+                return self.call_value(ex, e, p.env[n], args, kwargs, starkw, p, star)
             if ex.side != "real" and n in self.specs:
+                self.plain(e, star, starkw, n)
                 return self.inline(ex, e, self.specs[n], args, kwargs, p)
             if n in self.contracts:
+                self.plain(e, star, None, n)
                 return self.summary(ex, e, self.contracts[n], None, args, kwargs, starkw, p)
             if n in EXC_CODE or n == "Exception":
-                return [(ExcVal(n, args[0] if args else None), p)]
+                return [(self.exc_value(e, n, args, kwargs, star, starkw), p)]
             if n in lib.FUNCS:
-                h, aid = lib.FUNCS[n]
-                self.assumed.add(aid)
-                return h(ex, e, args, kwargs, p)
+                return self.lib_call(ex, e, n, args, kwargs, star, starkw, p)
             if ex.side != "real" and n.isupper() or (ex.side != "real" and re.fullmatch(r"[A-Z][A-Z0-9_]*", n)):
+                self.plain(e, star, starkw, n)
                 return self.spec_primitive(ex, e, n, args, kwargs, p)
             if ex.side in ("real", "dry"):
                 # a module-level helper of the same module that has no contract of its own: its body is part of the caller's obligation
                 fdef, _ = self.extract(self.cur_module, n) if self.cur_module else (None, None)
                 if isinstance(fdef, ast.FunctionDef):
                     ex.notes.append("helper %s() has no contract: inlined at line %s" % (n, getattr(e, "lineno", "?")))
+                    self.plain(e, star, starkw, n)
                     return self.inline(ex, e, fdef, args, kwargs, p)
             raise Unsupported("call of unknown function %s" % n, e)
         if isinstance(f, ast.Attribute):
@@ -379,16 +477,15 @@ class Ctx:
             if ref is not None:
                 name = ref.name
                 if name in lib.FUNCS:
-                    h, aid = lib.FUNCS[name]
-                    self.assumed.add(aid)
-                    return h(ex, e, args, kwargs, p)
+                    return self.lib_call(ex, e, name, args, kwargs, star, starkw, p)
                 if name in EXC_CODE:
-                    return [(ExcVal(name, args[0] if args else None), p)]
+                    return [(self.exc_value(e, name, args, kwargs, star, starkw), p)]
                 raise Unsupported("library function %s has no assumed contract" % name, e)
             mname = f.attr
             # method of self under contract
             if isinstance(f.value, ast.Name) and f.value.id == "self" and mname in self.contracts and self.contracts[mname].is_method:
                 selfv = ex.ev(f.value, p)[0][0]
+                self.plain(e, star, None, "." + mname)
                 return self.summary(ex, e, self.contracts[mname], selfv, args, kwargs, starkw, p)
             # mutators on locations
             if mname in MUTATORS:
@@ -400,50 +497,70 @@ class Ctx:
                 if l is not None:
                     cur = l.get(p)
                     if cur is not None and not isinstance(cur, (ClassRef,)):
+                        self.plain(e, star, starkw, "." + mname)
                         return self.mutate(ex, e, l, mname, args, kwargs, p)
             if mname in OBJECT_METHODS:
-                return self.object_method(ex, e, f, mname, args, kwargs, p)
+                self.plain(e, star, None, "." + mname)
+                return self.object_method(ex, e, f, mname, args, kwargs, p, starkw)
             res = []
             for obj, p2 in ex.ev(f.value, p):
                 self.none_check(ex, p2, obj, f)
+                if z3.is_expr(obj) and z3.is_app(obj) and obj.decl().name() == "SUPER":
+                    # super().m(...): the base class's method (library code, not under contract): a pure partial function of self and the
+                    # arguments, the same symbol on both sides
+                    self.assumed.add("A-sympy" if mname.startswith("_print") else "A-cpython")
+                    self.plain(e, star, starkw, "super()." + mname)
+                    res.extend(lib.partial(ex, p2, e, "super_" + mname + lib.kwsfx(kwargs), obj.arg(0), *args, *lib.kwvals(kwargs)))
+                    continue
                 if mname in lib.METHODS:
                     h, aid = lib.METHODS[mname]
                     self.assumed.add(aid)
-                    res.extend(h(ex, e, obj, args, kwargs, p2))
+                    if star is not None and mname in lib.STAR_OK_METHODS:
+                        self.plain(e, None, starkw, "." + mname)
+                        res.extend(h(ex, e, obj, args, dict(kwargs, __star__=star), p2))      # the handler models the starred shape itself
+                    else:
+                        self.plain(e, star, starkw, "." + mname)
+                        res.extend(h(ex, e, obj, args, dict(kwargs), p2))
                 elif mname in self.accessors:
                     self.assumed.add("A-antlr-tree")
-                    res.append((app("m_" + mname, asV(obj), *[asV(a) for a in args]), p2))
+                    self.plain(e, star, starkw, "." + mname)
+                    res.append((app("m_" + mname + lib.kwsfx(kwargs), asV(obj), *[asV(a) for a in args], *[asV(v) for v in lib.kwvals(kwargs)]), p2))
                 elif mname in MUTATORS:
                     raise Unsupported("mutating method .%s on a value without location" % mname, e)
                 elif mname in self.contracts and self.contracts[mname].is_method:
+                    self.plain(e, star, None, "." + mname)
                     res.extend(self.summary(ex, e, self.contracts[mname], obj, args, kwargs, starkw, p2))
                 elif ex.side != "real":
-                    res.append((app("m_" + mname, asV(obj), *[asV(a) for a in args]), p2))
+                    self.plain(e, star, starkw, "." + mname)
+                    res.append((app("m_" + mname + lib.kwsfx(kwargs), asV(obj), *[asV(a) for a in args], *[asV(v) for v in lib.kwvals(kwargs)]), p2))
                 else:
                     fdef = None
                     if isinstance(f.value, ast.Name) and f.value.id == "self" and self.cur_class and self.cur_module:
                         fdef, _ = self.extract(self.cur_module, self.cur_class + "." + mname)
                     if isinstance(fdef, ast.FunctionDef):
                         ex.notes.append("helper method self.%s() has no contract: inlined at line %s" % (mname, getattr(e, "lineno", "?")))
+                        self.plain(e, star, starkw, "." + mname)
                         res.extend(self.inline(ex, e, fdef, [obj] + list(args), kwargs, p2))
                     else:
                         # a library method without a specific contract: a pure, possibly failing function of receiver and arguments
                         # (all mutating methods of the builtin containers are handled above); recorded as assumed
                         ex.notes.append("method .%s() has no specific contract: treated as a pure partial function (line %s)" % (mname, getattr(e, "lineno", "?")))
                         self.assumed.add("A-cpython")
+                        self.plain(e, star, starkw, "." + mname)
                         res.extend(lib.partial(ex, p2, e, "um_" + mname + "".join("_" + k for k in sorted(kwargs)), obj, *args,
                                                *[v for k, v in sorted(kwargs.items())]))
             return res
         if isinstance(f, (ast.Subscript, ast.Call)):
             res = []
             for fv, p2 in ex.ev(f, p):
-                res.extend(self.call_value(ex, e, fv, args, kwargs, starkw, p2))
+                res.extend(self.call_value(ex, e, fv, args, kwargs, starkw, p2, star))
             return res
         raise Unsupported("call form", e)
 
-    def call_value(self, ex, e, fv, args, kwargs, starkw, p):
+    def call_value(self, ex, e, fv, args, kwargs, starkw, p, star=None):
         """calling a first-class value: a nested def, a class reference (cast / constructor), or an opaque callable"""
         if isinstance(fv, Closure):
+            self.plain(e, star, starkw, "nested function")
             return self.inline(ex, e, fv.fdef, args, kwargs, p, closure_env=p.env)
         if isinstance(fv, ClassRef):
             n = fv.name
@@ -453,9 +570,12 @@ class Ctx:
             ast.copy_location(fake, e)
             if n in lib.FUNCS or n in self.contracts or n in EXC_CODE:
                 return self.dispatch(ex, fake, fake.func, args, kwargs, starkw, St(env={}, glob=p.glob, heap=p.heap, conds=p.conds, loops=p.loops)) \
-                    if False else self.dispatch_noenv(ex, fake, args, kwargs, starkw, p)
+                    if False else self.dispatch_noenv(ex, fake, args, dict(kwargs, __star__=star) if star is not None else kwargs, starkw, p)
         vs = [asV(fv)] + [asV(a) for a in args] + [asV(v) for k, v in sorted(kwargs.items())] + ([asV(starkw)] if starkw is not None else [])
         nm = "CALLV%d%s%s" % (len(args), "".join("_" + k for k in sorted(kwargs)), "_starkw" if starkw is not None else "")
+        if star is not None:
+            # f(*seq) is not f(seq): which arguments were unpacked is part of the function symbol
+            nm += "_star" + "_".join(str(i) for i in star.v)
         return lib.partial(ex, p, e, nm, *vs)
 
     def dispatch_noenv(self, ex, fake, args, kwargs, starkw, p):
@@ -474,6 +594,8 @@ class Ctx:
         """ALLCAPS names in spec code are spec-level (mathematical) functions: total and pure unless declared partial"""
         if n == "RAISES":
             raise Unsupported("RAISES placeholder", e)
+        if kwargs:
+            raise Unsupported("%s with unexpected argument (keyword %s)" % (n, ", ".join(sorted(kwargs))), e)
         if n in SPEC_PREDS:
             return [(pred(SPEC_PREDS[n], *[asV(a) for a in args]), p)]
         if n in ("PARTIAL",):
@@ -492,6 +614,11 @@ class Ctx:
         if self.inline_depth > 6:
             raise Unsupported("inlining depth exceeded at %s" % fdef.name, e)
         names = [a.arg for a in fdef.args.args]
+        fa = fdef.args
+        if fa.vararg or fa.kwarg or fa.kwonlyargs or getattr(fa, "posonlyargs", None):
+            raise Unsupported("helper %s has *args / **kwargs / keyword-only / positional-only parameters" % fdef.name, e)
+        if len(args) > len(names) or any(k not in names for k in kwargs) or any(k in names[:len(args)] for k in kwargs):
+            raise Unsupported("%s with unexpected argument (parameters: %s)" % (fdef.name, ", ".join(names)), e)
         env = dict(closure_env) if closure_env else {}
         for nm, v in zip(names, args):
             env[nm] = v
@@ -539,11 +666,18 @@ class Ctx:
             ex.writes |= {k for k in sub.writes if not k.startswith("local:")}
         return res
 
-    def object_method(self, ex, e, f, mname, args, kwargs, p):
+    def object_method(self, ex, e, f, mname, args, kwargs, p, starkw=None):
         """methods of opaque library objects (antlr4 parser / walker): the receiver is updated in place (state threading keeps the
         order of calls observable), the call may raise, the result is a function of receiver state and arguments"""
         l = ex.loc(f.value, p)
         self.assumed.add("A-antlr-tree")
+        # keyword arguments and a **mapping are arguments of the method's functions like the positional ones: m(x, k=v, **kw) is the
+        # term meth_m_k_starkw(receiver, x, v, kw)
+        extra = [asV(v) for v in lib.kwvals(kwargs)] + ([asV(starkw)] if starkw is not None else [])
+        if mname == "walk" and (len(args) != 2 or extra):
+            raise Unsupported("walk with unexpected argument", e)
+        if extra:
+            mname = mname + lib.kwsfx(kwargs) + ("_starkw" if starkw is not None else "")
         if l is None or l.get(p) is None:
             # receiver is a temporary (e.g. the result of a helper call): its updated state is not observable afterwards
             if mname == "walk":
@@ -551,14 +685,14 @@ class Ctx:
             res = []
             for obj, p2 in ex.ev(f.value, p):
                 cur = asV(obj)
-                av = [asV(a) for a in args]
+                av = [asV(a) for a in args] + extra
                 q = ex.may_raise(p2, code("meth_" + mname, cur, *av), app("meth_%s_msg" % mname, cur, *av), e.lineno)
                 if q is not None:
                     res.append((app("ret_" + mname, cur, *av), q))
             return res
         q = p.copy()
         cur = asV(l.get(q))
-        av = [asV(a) for a in args]
+        av = [asV(a) for a in args] + extra
         if mname == "walk":
             # ParseTreeWalker.walk(listener, tree): runs the listener's handlers over the tree (A-antlr-walk): the listener object and the
             # module tables are whatever the handlers make of them -- a function of listener, tree and the tables
@@ -592,6 +726,12 @@ class Ctx:
         cur = l.get(q)
         a = [asV(x) for x in args]
         ret = PyC(None)
+        arity = {"append": (1, 1), "extend": (1, 1), "clear": (0, 0), "update": (1, 1), "add": (1, 1), "insert": (2, 2), "remove": (1, 1), "pop": (2, 2),
+                 "setdefault": (1, 2)}
+        if mname in arity and (kwargs or not arity[mname][0] <= len(args) <= arity[mname][1]):
+            # d.update(x, k=v), d.update(**kw), s.update(a, b), xs.pop(), xs.pop(i), d.pop(k): none of these is the modelled shape
+            raise Unsupported("mutating method .%s with unexpected argument (%d positional%s)"
+                              % (mname, len(args), "".join(", %s=" % k for k in sorted(kwargs))), e)
         if mname == "append":
             new = Tup(cur.items + [args[0]], "list") if isinstance(cur, Tup) and cur.kind == "list" else app("list_app", asV(cur), a[0])
         elif mname == "extend":
@@ -657,6 +797,9 @@ class Ctx:
             params = params[1:]
         elif c.ctor:
             params = params[1:]
+        if len(args) > len(params) or any(k not in params for k in kwargs) or any(k in params[:len(args)] for k in kwargs):
+            # an argument that no parameter of the contract receives would not reach the callee's summary functions
+            raise Unsupported("call of %s with unexpected argument (parameters: %s)" % (c.name, ", ".join(params)), e)
         for nm, v in zip(params, args):
             binding[nm] = v
         for k, v in kwargs.items():
